@@ -21,6 +21,9 @@ claimed = {
  "C18": ("lockset analysis on SSA: lock dominance/extent in ServeHTTP, handler entry who-may-call, inter-procedural shared-write analysis for goroutines started in loops",
          "Structural necessary conditions of race freedom: the per-interpreter mutex dominates every per-request state access and is held to return; handlers enter only through ServeHTTP; no goroutine with several live instances reaches an unlocked write to shared memory. Decides lock shape for all interleavings at once; does not decide response equality with a serial order.",
          "trusts go/ssa and static call resolution inside the module; library code assumed not to write falco state", "DESIGN.md §4 C18"),
+ "C15": ("comment-slot coverage: parser writer sites resolved to (owner access path, slot) on SSA vs inter-procedural read summaries of the formatter (fixpoint, type-switch narrowing, re-rooting, nested-context exact paths)",
+         "Structural necessary condition: every comment slot the parser can fill (169 placement sites) is read by some printer on a matching access path, and formatComment emits every element. A slot nobody reads loses every comment written there, for all programs and configurations. Does not decide order or re-parse position.",
+         "trusts go/ssa; one alias entry (shared *Meta of SubroutineParameter and its Name) in c15.go; owners known only by static type are matched weakly (3 sites, counted in evidence)", "DESIGN.md §4 C15"),
  "C16": ("who-may-write + dominance on SSA with inter-procedural path taint (fsatomic)",
          "Structural necessary conditions: no in-place write/truncate of a path derived from the input VCL name anywhere in the module; the only mutation is rename(tmp→path) dominated by the success edges of all writes to tmp which copy the formatter's result; the formatter's possibly-nil result is tested before use. Decides the shape of the write path on all paths, not kernel behaviour.",
          "trusts go/ssa; assumes the input file is named by resolver.VCL.Name and same-directory rename is atomic", "DESIGN.md §4 C16"),
